@@ -103,6 +103,11 @@ type FieldSpec struct {
 	Doc         string
 	Default     ConstantValue
 	Annotations Annotations
+
+	// linkingDefault is true while the default value of this field is being
+	// linked; needing the default again during that time means the default
+	// is defined in terms of itself.
+	linkingDefault bool
 }
 
 // compileField compiles the given Field source into a FieldSpec.
@@ -164,6 +169,11 @@ func (f *FieldSpec) Link(scope Scope) (err error) {
 		return err
 	}
 	if f.Default != nil {
+		if f.linkingDefault {
+			return referenceCycleError{Kind: "default value of field", Name: f.Name}
+		}
+		f.linkingDefault = true
+		defer func() { f.linkingDefault = false }()
 		f.Default, err = f.Default.Link(scope, f.Type)
 	}
 	return err
